@@ -52,6 +52,15 @@ CHECKS["C14"] = ("DESIGN.md C14",
     "with symbolic characters must lex to the same token; != vs <>, trailing semicolons and "
     "redundant parentheses on 12 expression seeds evaluated over symbolic int operands.")
 
+CHECKS["C02"] = ("DESIGN.md C02",
+    "Every ordered pair (thorough: triple) of the 14 binary operators in `u a op1 u b op2 u c`, every "
+    "unary placement and both parenthesisations, parsed by the real parser and evaluated by the "
+    "real evaluator over symbolic operand values (ints in [-10^6,10^6], symbolic booleans, NULL) "
+    "and compared for all values with a reference evaluator written from the property's precedence "
+    "table; add/sub/mul/div/mod natives over unbounded symbolic ints against the defining "
+    "equations of exact arithmetic; int/decimal/NULL kind matrix; `x is not P` against "
+    "`not (x is P)` for every identifier of the token alphabet and a value pool of every kind.")
+
 NA = {}
 
 
